@@ -223,6 +223,7 @@ def run_side(cmd, cases, stateful, timeout, max_restarts=40):
     results = [None] * len(cases)
     start = 0
     guard = 0
+    n_timeouts = 0
     while start < len(cases):
         guard += 1
         batch = cases[start:]
@@ -242,6 +243,8 @@ def run_side(cmd, cases, stateful, timeout, max_restarts=40):
                 if len(outs1) < need and (rc1 != 0):
                     got, trailing, rc, err = outs1, trailing1, rc1, err1
                 msg = "rc=%s " % rc + summarize_crash(err)
+                if "TIMEOUT" in msg:
+                    n_timeouts += 1
                 if stateful and got:
                     got = got[1:]
                 results[start + ci] = {"outs": got, "crash": msg, "trailing": trailing}
@@ -265,7 +268,8 @@ def run_side(cmd, cases, stateful, timeout, max_restarts=40):
                 results[start + done - 1]["trailing"] = trailing
             break
         start += done
-        if guard > max_restarts:
+        if guard > max_restarts or n_timeouts >= 2:
+            # (a driver that hangs again and again: two witnesses are enough, do not wait for more)
             break
     for i, r in enumerate(results):
         if r is None:
@@ -503,7 +507,8 @@ def main():
             m2 = importlib.import_module("props." + mname)
             n2 = ncomp if tier == "quick" else ncomp * 10
             passes.append((m2, [Case(ops, "gen-companion") for ops in m2.generate(rng, tier, n2)]))
-    timeout = 3000 if tier == "thorough" else 900
+    # (a driver that does not come back is a finding: the slices are small, so these are generous)
+    timeout = 1200 if tier == "thorough" else 150
     evaluations = 0
     tags = {}
     all_fails = []   # (case, failure)
